@@ -1,3 +1,4 @@
+mod aux;
 mod cv;
 mod gen;
 mod prog;
@@ -25,6 +26,10 @@ fn with_curve<R>(name: &str, f: impl FnOnce(&dyn CurveDyn) -> R) -> R {
 trait CurveDyn {
     fn record_programs(&self, progs: &[Program], out: &mut dyn Write) -> Vec<Value>;
     fn replay_programs(&self, progs: &[Program]) -> Vec<Value>;
+    fn pedersen(&self, patterns: &[Value], seed: u64) -> Vec<Value>;
+    fn ipp(&self, insts: &[Value], seed: u64) -> (Vec<Value>, Vec<Value>);
+    fn gens(&self, hists: &[Value]) -> Vec<Value>;
+    fn gens_facts(&self, cap: usize, parties: usize) -> Value;
 }
 struct Dyn<C: Cv>(std::marker::PhantomData<C>);
 impl<C: Cv> CurveDyn for Dyn<C> {
@@ -48,6 +53,38 @@ impl<C: Cv> CurveDyn for Dyn<C> {
                                         "bad": bad, "proof": r.proof_bytes.as_ref().map(|b| cv::hex(b))}));
         }
         out
+    }
+    fn pedersen(&self, patterns: &[Value], seed: u64) -> Vec<Value> {
+        let mut out = vec![];
+        aux::pedersen::<C>(patterns, seed, &mut out);
+        out
+    }
+    fn ipp(&self, insts: &[Value], seed: u64) -> (Vec<Value>, Vec<Value>) {
+        let mut events = vec![];
+        let mut results = vec![];
+        for (i, inst) in insts.iter().enumerate() {
+            let n0 = events.len();
+            let bad = aux::ipp_instance::<C>(inst, seed.wrapping_mul(1_000_003).wrapping_add(i as u64), &mut events);
+            results.push(serde_json::json!({"i": i, "inst": inst, "curve": C::NAME, "bad": bad, "events": events.len() - n0}));
+        }
+        (events, results)
+    }
+    fn gens(&self, hists: &[Value]) -> Vec<Value> {
+        hists.iter().map(|h| aux::gens_history::<C>(h)).collect()
+    }
+    fn gens_facts(&self, cap: usize, parties: usize) -> Value {
+        aux::gens_facts::<C>(cap, parties)
+    }
+}
+
+fn read_json_lines(path: &str) -> Vec<Value> {
+    let f = std::fs::File::open(path).expect("open input");
+    std::io::BufReader::new(f).lines().map(|l| l.unwrap()).filter(|l| !l.trim().is_empty()).map(|l| serde_json::from_str(&l).unwrap()).collect()
+}
+fn write_json_lines(path: &str, rows: &[Value]) {
+    let mut out = std::io::BufWriter::new(std::fs::File::create(path).unwrap());
+    for r in rows {
+        writeln!(out, "{}", serde_json::to_string(r).unwrap()).unwrap();
     }
 }
 
@@ -91,6 +128,38 @@ fn main() {
             for r in res {
                 writeln!(out, "{}", serde_json::to_string(&r).unwrap()).unwrap();
             }
+        }
+        // pedersen --curve C [--patterns FILE] --seed S --out FILE
+        "pedersen" => {
+            let curve = arg(&args, "--curve").unwrap();
+            let pats = arg(&args, "--patterns").map(|p| read_json_lines(&p)).unwrap_or_default();
+            let seed: u64 = arg(&args, "--seed").map(|s| s.parse().unwrap()).unwrap_or(1);
+            let rows = with_curve(&curve, |c| c.pedersen(&pats, seed));
+            write_json_lines(&arg(&args, "--out").unwrap(), &rows);
+        }
+        // ipp --curve C --instances FILE --seed S --out TRACE --results FILE
+        "ipp" => {
+            let curve = arg(&args, "--curve").unwrap();
+            let insts = read_json_lines(&arg(&args, "--instances").unwrap());
+            let seed: u64 = arg(&args, "--seed").map(|s| s.parse().unwrap()).unwrap_or(1);
+            let (ev, res) = with_curve(&curve, |c| c.ipp(&insts, seed));
+            write_json_lines(&arg(&args, "--out").unwrap(), &ev);
+            write_json_lines(&arg(&args, "--results").unwrap(), &res);
+        }
+        // gens --curve C --histories FILE --out FILE
+        "gens" => {
+            let curve = arg(&args, "--curve").unwrap();
+            let hists = read_json_lines(&arg(&args, "--histories").unwrap());
+            let rows = with_curve(&curve, |c| c.gens(&hists));
+            write_json_lines(&arg(&args, "--out").unwrap(), &rows);
+        }
+        // gensfacts --curve C --cap N --parties M
+        "gensfacts" => {
+            let curve = arg(&args, "--curve").unwrap();
+            let cap: usize = arg(&args, "--cap").unwrap().parse().unwrap();
+            let parties: usize = arg(&args, "--parties").unwrap().parse().unwrap();
+            let v = with_curve(&curve, |c| c.gens_facts(cap, parties));
+            println!("{}", serde_json::to_string(&v).unwrap());
         }
         // genprogs --seed S --n N --out FILE [--maxops K] [--modulus P]
         "genprogs" => {
